@@ -708,6 +708,9 @@ class ExprMixin:
                 if f.is_property and fr is not None:
                     return self.call_function(f, base, [], {}, fr, node)
                 return FuncV(f, recv=base, defcls=f.cls)
+            v = self.parser_class(base).resolve_var(attr)
+            if v is not None:
+                return self.eval_var(v)         # a class level constant of the parser class (a word size, a header size)
             return Unknown('parser attr %s' % attr)
         if isinstance(base, ComposerV):
             n = len(base.ops)
@@ -720,6 +723,9 @@ class ExprMixin:
             f = self.composer_class(base).resolve(attr)
             if f is not None:
                 return FuncV(f, recv=base, defcls=f.cls)
+            v = self.composer_class(base).resolve_var(attr)
+            if v is not None:
+                return self.eval_var(v)
             return Unknown('composer attr %s' % attr)
         if isinstance(base, ClassV):
             if isinstance(base.cls, ClassInfo):
